@@ -347,7 +347,52 @@ def run(ctx):
         run_events(prog, auth, ea)
         reads = [n for n in ea.at if isinstance(n, ast.stmt) and not isinstance(n, (ast.Try, ast.If, ast.With, ast.For, ast.While)) and
                  any(isinstance(c, ast.Call) and isinstance(c.func, ast.Attribute) and c.func.attr == "read" for c in ast.walk(n))]
-        return bool(reads) and all("armed" in ea.at[n] for n in reads)
+        if not (bool(reads) and all("armed" in ea.at[n] for n in reads)):
+            return False
+        # ... and False again on *every* way out, also the ones nobody names (a timeout or a cancellation of the read is no ProtocolError):
+        # whatever can raise while the flag may be up sits in a try whose `finally` (or catch-all handler) lowers it
+        def is_store(n, val):
+            return isinstance(n, ast.Assign) and any(isinstance(t, ast.Attribute) and t.attr == attr for t in n.targets) and isinstance(n.value, ast.Constant) \
+                and n.value.value is val
+
+        def on_stmt2(node, st):
+            return ["up"] if any(is_store(n, True) for n in ast.walk(node)) else []
+        may = EventAnalysis(must=False, on_stmt=on_stmt2, kill=lambda node, e: e == "up" and any(is_store(n, False) for n in ast.walk(node)) and not isinstance(node, ast.Try))
+        run_events(prog, auth, may)
+        # parents over the whole module: the analysis walks into same-class helpers, whose statements are then judged where they stand
+        # and, failing that, at every call site of the helper
+        par = {}
+        for root_ in [auth.module.tree]:
+            for n in ast.walk(root_):
+                for c in ast.iter_child_nodes(n):
+                    par[c] = n
+
+        def try_covers(p_, x):
+            if isinstance(p_, ast.Try) and any(x is b for b in p_.body):
+                lowers = any(is_store(y, False) for st_ in p_.finalbody for y in ast.walk(st_))
+                catch_all = any((h.type is None or (isinstance(h.type, ast.Name) and h.type.id == "BaseException")) and
+                                any(is_store(y, False) for st_ in h.body for y in ast.walk(st_)) for h in p_.handlers)
+                return lowers or catch_all
+            return False
+
+        def protected(n, depth=0):
+            x = n
+            while x in par:
+                p_ = par[x]
+                if try_covers(p_, x):
+                    return True
+                if isinstance(p_, (ast.FunctionDef, ast.AsyncFunctionDef)) and p_ is not auth.node and depth < 4:
+                    cls_ = par.get(p_)
+                    sites = [c for c in ast.walk(cls_) if isinstance(c, ast.Call) and isinstance(c.func, ast.Attribute) and c.func.attr == p_.name
+                             and isinstance(c.func.value, ast.Name)] if isinstance(cls_, ast.ClassDef) else []
+                    return bool(sites) and all(protected(c, depth + 1) for c in sites)
+                x = p_
+            return False
+        for n, st_ in may.at.items():
+            if isinstance(n, ast.stmt) and not isinstance(n, (ast.Try, ast.If, ast.With, ast.For, ast.While, ast.FunctionDef, ast.AsyncFunctionDef)) and "up" in st_ \
+                    and any(isinstance(c, (ast.Call, ast.Await)) for c in ast.walk(n)) and not is_store(n, False) and not protected(n):
+                return False
+        return True
 
     # ---- C05.f every payload _process_packet hands out for a header-valid packet went through the tag comparison.
     # The type nibble is itself unauthenticated at this point, so an accepted type that is returned *without* the tag check is
